@@ -23,6 +23,101 @@ GO = "pint.facets.group.objects"
 GR = "pint.facets.group.registry"
 
 
+# ---------------------------------------------------------------- role-based helpers shared by the packs that use this file
+def excluded_conjunctions(node, fn):
+    """For every fact known where `node` executes: a list [(positive atom, truth)] whose *conjunction* is known NOT to
+    hold there - whatever the spelling: `if a and b: ... else: <node>`, `if not a or not b: <node>`,
+    `if a and b: continue` before <node>, `if not a: <node>` (a one-element list)."""
+    from . import shape
+    for at, tr in shape.facts_at(node, fn):
+        if isinstance(at, ast.BoolOp) and isinstance(at.op, ast.And) and not tr:
+            yield list(shape.conjuncts(at, "t"))
+        elif isinstance(at, ast.BoolOp) and isinstance(at.op, ast.Or) and tr:
+            yield list(shape.conjuncts(at, "f"))
+        elif not isinstance(at, ast.BoolOp):
+            yield [(at, not tr)]
+
+
+def base_of(e: ast.AST) -> ast.AST:
+    """the object an access path starts from: `a.b[c].d` -> `a`; `f(x).b` -> the call `f(x)`"""
+    while isinstance(e, (ast.Attribute, ast.Subscript, ast.Starred)):
+        e = e.value
+    return e
+
+
+def written_receivers(node: ast.AST) -> list:
+    """the expressions whose object is modified by a write found by flow.writes_in (statement or mutator call):
+    targets of assignments / deletions, receiver of a mutating method call"""
+    if isinstance(node, ast.Assign):
+        ts = list(node.targets)
+    elif isinstance(node, (ast.AugAssign, ast.AnnAssign)):
+        ts = [node.target]
+    elif isinstance(node, ast.Delete):
+        ts = list(node.targets)
+    elif isinstance(node, ast.Call) and isinstance(node.func, ast.Attribute):
+        return [node.func.value]
+    else:
+        return []
+    out = []
+    for t in ts:
+        out += list(t.elts) if isinstance(t, (ast.Tuple, ast.List)) else [t]
+    return [t for t in out if isinstance(t, (ast.Attribute, ast.Subscript))]
+
+
+def enclosing(node, kinds, stop=None):
+    """closest ancestor of `node` that is an instance of `kinds` (inside `stop`)"""
+    cur = getattr(node, "_parent", None)
+    while cur is not None and cur is not stop:
+        if isinstance(cur, kinds):
+            return cur
+        cur = getattr(cur, "_parent", None)
+    return None
+
+
+def table_reads(fi, table_part: str) -> list:
+    """Subscript loads `T[K]` in `fi` whose table T (local aliases expanded) mentions `table_part`"""
+    defs = defs_of(fi)
+    from .lib import resolve_alias
+    return [n for n in walk_local(fi.node) if isinstance(n, ast.Subscript) and isinstance(n.ctx, ast.Load) and table_part in resolve_alias(defs, n.value)]
+
+
+def guard_facts(node, fn, skip=lambda at: False, about=None) -> set:
+    """{(atom text, truth)} known where `node` executes (if/else in either polarity, guard clauses, and/or, nested or
+    merged conditions); compound facts (`not (a and b)`) are kept as their text unless `about` is given.  A truthiness fact about a plain name
+    is dropped when an equality on that name is also known (the equality says more)."""
+    from . import shape
+    facts = []
+    for at, tr in shape.facts_at(node, fn):
+        # a condition held in a temporary (`use_memo = a and b` ... `if use_memo:`) stands for its definition
+        r = shape.resolve(at, fn) if isinstance(at, ast.Name) else at
+        facts += [(a2, t2) for a2, t2 in shape.conjuncts(r, "t" if tr else "f") if not skip(a2)]
+    pinned = set()
+    for at, tr in facts:
+        if tr and isinstance(at, ast.Compare) and len(at.ops) == 1 and isinstance(at.ops[0], ast.Eq):
+            pinned |= {x.id for x in (at.left, at.comparators[0]) if isinstance(x, ast.Name)}
+    if about is not None:
+        # only atomic facts that say something about the given names (e.g. the parameters that are not part of a memo
+        # key); a compound fact such as "the earlier lookup `a and key in memo` failed" pins nothing
+        facts = [(at, tr) for at, tr in facts if not isinstance(at, ast.BoolOp) and {x.id for x in ast.walk(at) if isinstance(x, ast.Name)} & set(about)]
+    return {(norm(at), tr) for at, tr in facts if not (isinstance(at, ast.Name) and at.id in pinned)}
+
+
+def _show(facts) -> list:
+    return sorted((t if tr else f"not ({t})") for t, tr in facts)
+
+
+def looked_through(ix, fi, skip=(), transform=None):
+    """`fi` itself when it calls no private helper that hides statements from the rules; otherwise a FuncInfo look-alike
+    whose node has those helpers inlined (shape.inline_helpers, or `transform(ix, fi)` when given).  Keeping the original
+    node whenever nothing was inlined keeps the reports on the real source lines."""
+    from .lib import _Inlined
+    from . import shape
+    fn = transform(ix, fi) if transform is not None else shape.inline_helpers(ix, fi, skip=skip)
+    if ast.unparse(fn) == ast.unparse(fi.node):
+        return fi
+    return _Inlined(fi, fn)
+
+
 def _cfg_nodes_of(cfg, a):
     return cfg.nodes_for_ast(a)
 
@@ -177,28 +272,41 @@ def rule_parse_unit_memo(ck, ix):
     cfg, defs = cfg_of(fi), defs_of(fi)
     sites = [s for s in find_memo_sites(fi) if "parse_unit" in s.table]
     ck.floor("G-MEMO-GUARD", len(sites), 1, "parse_unit memo lookup in _parse_units_as_container")
+    from . import shape as _shp
     for s in sites:
-        test = s.lookup_node.test if isinstance(s.lookup_node, ast.If) else None
-        if test is None:
-            raise AnalysisError("parse_unit memo lookup is not an if-test")
-        conj = [norm(x) for x in (test.values if isinstance(test, ast.BoolOp) and isinstance(test.op, ast.And) else [test])]
-        ck.check("as_delta" in conj, "G-MEMO-GUARD", "parse_unit|read-requires-as_delta", fi.loc(test),
-                 "cache is only read for as_delta=True", "cache is read although as_delta may be False (delta and non-delta readings share one slot)")
-        ck.check(any(c.endswith(" in self._units") and c.startswith(norm(s.lookup_key)) for c in conj), "G-MEMO-GUARD",
-                 "parse_unit|read-requires-key-in-unit-table", fi.loc(test),
-                 "cache hit requires the string to be a key of the unit table",
-                 "cache hit no longer requires the string to be in the unit table (issue #1097 guard dropped)")
+        # what is known where the memo is read (the `in` test of the slot itself aside), whatever the spelling of the test
+        reads = [r for r in table_reads(fi, "parse_unit") if not isinstance(getattr(r, "_parent", None), ast.Compare)]
+        ck.floor("G-MEMO-GUARD", len(reads), 1, "read of the parse_unit memo")
+        for r in reads:
+            rf = _shp.facts_at(r, fi.node)
+            ck.check(any(tr and norm(at) == "as_delta" for at, tr in rf), "G-MEMO-GUARD", "parse_unit|read-requires-as_delta", fi.loc(r),
+                     "cache is only read for as_delta=True", "cache is read although as_delta may be False (delta and non-delta readings share one slot)")
+            ck.check(any(tr and isinstance(at, ast.Compare) and isinstance(at.ops[0], ast.In) and norm(at.left) == norm(r.slice) and norm(at.comparators[0]) == "self._units" for at, tr in rf), "G-MEMO-GUARD",
+                     "parse_unit|read-requires-key-in-unit-table", fi.loc(r),
+                     "cache hit requires the string to be a key of the unit table",
+                     "cache hit no longer requires the string to be in the unit table (issue #1097 guard dropped)")
         ck.floor("G-MEMO-GUARD", len(s.stores), 1, "parse_unit memo store")
         for (k, v, st) in s.stores:
             ids = _cfg_nodes_of(cfg, st)
-            gates = [n.id for n in cfg.nodes if n.kind == "test" and norm(n.ast) == "as_delta"]
+            safe = _shp.guard_edges(cfg, lambda a: norm(a) == "as_delta", want=True)
             okg = True
             for i in live(cfg, ids):
-                # store must lie on the true edge of an `as_delta` test
-                p = cfg.all_paths_pass(cfg.entry, [i], [], avoid_edges=[(g, "t") for g in gates])
-                okg = okg and p is None
-            ck.check(bool(gates) and okg, "G-MEMO-GUARD", "parse_unit|write-requires-as_delta", fi.loc(st),
+                # the store is only reachable over an edge on which `as_delta` holds
+                okg = okg and _shp.reachable_without(cfg, [i], safe) is None
+            ck.check(bool(safe) and okg, "G-MEMO-GUARD", "parse_unit|write-requires-as_delta", fi.loc(st),
                      "cache only written for as_delta=True", "cache is written when as_delta is False, but read assuming as_delta=True")
+            # the slot is keyed by the string alone: what the two guards say about the *other* parameters (as_delta,
+            # case_sensitive) must agree, or a slot filled for one kind of request answers another kind
+            other_params = set(defs.params) - {"self", "cls"} - names_in(s.lookup_key)
+            wf = guard_facts(st, fi.node, about=other_params)
+            rf = None
+            for r in reads:
+                f_ = guard_facts(r, fi.node, about=other_params)
+                rf = f_ if rf is None else (rf & f_)
+            if bool(safe) and okg:
+                ck.check(wf == rf, "G-MEMO-GUARD", "parse_unit|write-requires-as_delta", fi.loc(st),
+                         f"written and read under the same conditions on the other parameters {_show(wf)}",
+                         f"cache is written under {_show(wf)} but read under {_show(rf or set())}: a slot filled for one kind of request (as_delta / case sensitivity) is served to another")
             rets = [r for r in walk_local(fi.node) if isinstance(r, ast.Return) and r.value is not None and r.lineno > st.lineno]
             for r in rets:
                 ck.check(norm(r.value) == norm(v), "G-MEMO-HIT", "parse_unit|miss-returns-what-it-stores", fi.loc(r),
@@ -232,11 +340,14 @@ def rule_dimensional_equivalents(ck, ix):
     """Filled once in _build_cache; definitions added later must reach it."""
     fi = ix.func(PR, "GenericPlainRegistry._build_cache")
     ck.analysed(fi)
-    fills = [c for c in walk_local(fi.node) if isinstance(c, ast.Call) and call_name(c) in ("setdefault", "add") and
-             ("dimensional_equivalents" in norm(c) or "dimeq" in norm(c))]
+    from . import shape as _shd
+    # calls on the listing itself or on one of its entries (possibly held in a local: `s = listing.setdefault(k, set())`)
+    on_listing = lambda c: isinstance(c.func, ast.Attribute) and "dimensional_equivalents" in _shd.rnorm(c.func.value, fi.node)
+    fills = [c for c in walk_local(fi.node) if isinstance(c, ast.Call) and call_name(c) in ("setdefault", "add") and on_listing(c)]
     ck.floor("G-MEMO-FILL", len(fills), 1, "dimensional_equivalents fill in _build_cache")
     # the set entry added is the canonical name of the unit
-    adds = [c for c in walk_local(fi.node) if isinstance(c, ast.Call) and call_name(c) == "add"]
+    adds = [c for c in fills if call_name(c) == "add" and c.args]
+    ck.floor("G-MEMO-FILL", len(adds), 1, "entry added to a dimensional_equivalents set in _build_cache")
     for c in adds:
         ck.check(norm(c.args[0]).endswith(".name") and "self._units[" in norm(c.args[0]), "G-MEMO-FILL",
                  "dimensional_equivalents|entry-is-canonical-name", fi.loc(c),
@@ -331,6 +442,17 @@ def rule_disk_cache_hit(ck, ix):
 
 
 # ------------------------------------------------------------------ context overlay / switch
+_SWITCH = {}
+
+
+def _switch_function(ix):
+    """GenericContextRegistry._switch_context_cache_and_units with its private value-less helpers inlined (an extracted
+    `_apply_redefinitions`-like helper must not hide the statements the rules reason about)."""
+    if id(ix) not in _SWITCH:
+        _SWITCH[id(ix)] = looked_through(ix, ix.func(CR, "GenericContextRegistry._switch_context_cache_and_units"), skip=("_redefine",))
+    return _SWITCH[id(ix)]
+
+
 def rule_context_overlay(ck, ix):
     fi = ix.func(CR, "ContextCacheOverlay.__init__")
     ck.analysed(fi)
@@ -352,9 +474,10 @@ def rule_context_overlay(ck, ix):
                  f"memo=ContextCacheOverlay:{attr}|present", fi.loc(v) if v is not None else fi.loc(),
                  f"overlay provides {attr}", f"overlay does not provide `{attr}` (shared with the base cache or fresh)")
 
-    fi = ix.func(CR, "GenericContextRegistry._switch_context_cache_and_units")
+    fi = _switch_function(ix)
     ck.analysed(fi)
     cfg, defs = cfg_of(fi), defs_of(fi)
+    from . import shape as _sho
     # (1) overlay maps dropped first on every path
     drops = nodes_with(cfg, lambda x: isinstance(x, ast.Delete) and "self._units.maps" in norm(x))
     drops += nodes_with(cfg, lambda x: isinstance(x, ast.Assign) and any("self._units.maps" in norm(t) for t in x.targets) and not any(isinstance(t, ast.Subscript) and isinstance(t.slice, ast.Constant) for t in x.targets))
@@ -382,7 +505,7 @@ def rule_context_overlay(ck, ix):
              "every switch installs the cache of the active context combination",
              "a path through the switch leaves self._cache of the previous context combination in place", witness(cfg, p))
     # (3) no-redefinition branch installs the base cache
-    base_installs = [w for w in first_cache_write if norm(cfg.nodes[w].ast.value) == "self._caches[()]"]
+    base_installs = [w for w in first_cache_write if _sho.rnorm(cfg.nodes[w].ast.value, fi.node) == "self._caches[()]"]
     ck.check(bool(base_installs), "G-MEMO-INV", "switch|no-redefinitions-installs-base-cache", fi.loc(),
              "without redefinitions the base cache is installed", "the base cache `self._caches[()]` is never re-installed")
     # (4) overlay branch: key from hashable(), new overlay cache built from base, units overlay inserted at 0 before redefining
@@ -393,12 +516,12 @@ def rule_context_overlay(ck, ix):
         if ptab in ("self._caches", "self._context_units") and kind == "item-store":
             for t in node.targets:
                 if isinstance(t, ast.Subscript) and dotted(t.value) == ptab:
-                    ck.check(norm(t.slice) in keys, "G-MEMO-KEY", f"switch|{ptab}-stored-under-chain-key", fi.loc(node),
+                    ck.check(norm(t.slice) in keys or _sho.rnorm(t.slice, fi.node) == "self._active_ctx.hashable()", "G-MEMO-KEY", f"switch|{ptab}-stored-under-chain-key", fi.loc(node),
                              f"{ptab} stored under the chain key", f"{ptab} stored under `{norm(t.slice)}`, not the chain key")
     overlay_new = [c for c in walk_local(fi.node) if isinstance(c, ast.Call) and call_name(c) == "ContextCacheOverlay"]
     ck.floor("G-MEMO-INV", len(overlay_new), 1, "ContextCacheOverlay construction")
     for c in overlay_new:
-        arg = defs.inline(c.args[0]) if c.args else None
+        arg = _sho.resolve(c.args[0], fi.node) if c.args else None
         ck.check(arg is not None and norm(arg) == "self._caches[()]", "G-MEMO-INV", "switch|overlay-built-on-base-cache", fi.loc(c),
                  "overlay layered on the base cache", f"overlay layered on `{norm(arg)}` instead of the base cache")
     redef = nodes_calling(cfg, "_redefine")
@@ -417,8 +540,14 @@ def rule_context_overlay(ck, ix):
     # (5) save/restore of _on_redefinition in try/finally
     rule_save_restore(ck, fi, "self._on_redefinition", "switch|on_redefinition-restored")
     # (6) iteration order: oldest context first so that the newest redefinition wins
-    for f in [x for x in walk_local(fi.node) if isinstance(x, ast.For) and "contexts" in norm(x.iter)]:
-        ck.check(isinstance(f.iter, ast.Call) and call_name(f.iter) == "reversed", "G-PROV", "switch|redefinitions-applied-oldest-first", fi.loc(f),
+    # the loop in (under) which the redefinitions are applied iterates the chain's contexts reversed
+    apply_loops = [x for x in walk_local(fi.node) if isinstance(x, ast.For) and "_active_ctx.contexts" in _sho.rnorm(x.iter, fi.node)
+                   and any(isinstance(c, ast.Call) and call_name(c) == "_redefine" for c in ast.walk(x))]
+    ck.floor("G-PROV", len(apply_loops), 1, "loop applying the redefinitions of the active contexts")
+    for f in apply_loops:
+        it = _sho.resolve(f.iter, fi.node)
+        oldest_first = _sho.match("reversed(self._active_ctx.contexts)", it) is not None or _sho.match("self._active_ctx.contexts[::-1]", it) is not None
+        ck.check(oldest_first, "G-PROV", "switch|redefinitions-applied-oldest-first", fi.loc(f),
                  "contexts are stored newest-first and applied reversed, so the newest redefinition wins",
                  "redefinitions are not applied in reversed (oldest-first) order: an older context would override a newer one")
 
@@ -431,8 +560,15 @@ def rule_context_overlay(ck, ix):
                  f"hashable() includes {attr}", f"Context.hashable() no longer includes `{attr}`: context combinations differing in it share one overlay/cache")
     fi = ix.func(CO, "ContextChain.hashable")
     ck.analysed(fi)
-    src = norm(fi.node)
-    ck.check("self.contexts" in src and "hashable()" in src, "G-MEMO-KEY", "ContextChain.hashable|covers-every-active-context", fi.loc(),
+    # <c>.hashable() is taken for every <c> of a loop / comprehension over self.contexts
+    from .lib import find as _find
+    from . import shape as _shh
+    covers = False
+    for (nd, b, fnh) in _find(ix, fi, "_C.hashable()"):
+        it = enclosing(nd, (ast.comprehension, ast.For, ast.ListComp, ast.GeneratorExp, ast.SetComp), fnh)
+        gens = it.generators if isinstance(it, (ast.ListComp, ast.GeneratorExp, ast.SetComp)) else ([it] if it is not None else [])
+        covers = covers or any(norm(g_.target) == b["_C"] and _shh.rnorm(g_.iter, fnh) == "self.contexts" for g_ in gens)
+    ck.check(covers, "G-MEMO-KEY", "ContextChain.hashable|covers-every-active-context", fi.loc(),
              "chain key is the tuple of every active context's key", "ContextChain.hashable() does not cover every active context")
 
 
@@ -473,29 +609,34 @@ def rule_base_units_cache(ck, ix):
     cfg, defs = cfg_of(fi), defs_of(fi)
     sites = [s for s in find_memo_sites(fi) if "_base_units_cache" in s.table and "source" not in s.table]
     ck.floor("G-MEMO-GUARD", len(sites), 1, "_base_units_cache lookup in _get_base_units")
+    from . import shape as _shb
+    slot_test = lambda at: isinstance(at, ast.Compare) and isinstance(at.ops[0], ast.In) and "_base_units_cache" in norm(at.comparators[0])
     for s in sites:
         test = s.lookup_node.test
-        rconj = [norm(x) for x in (test.values if isinstance(test, ast.BoolOp) and isinstance(test.op, ast.And) else [test])]
-        rguard = [c for c in rconj if " in self._base_units_cache" not in c]
+        # the read guard: everything known where a slot of the memo is read, the membership test of the slot aside -
+        # whatever the spelling (one `and`, nested ifs, guard clauses, flipped branches)
+        slot_reads = [r for r in table_reads(fi, "_base_units_cache") if "source" not in norm(r.value)]
+        ck.floor("G-MEMO-GUARD", len(slot_reads), 1, "read of a _base_units_cache slot")
+        # the answer depends on every parameter; those that are not part of the key must be pinned alike by both guards
+        other_params = set(defs.params) - {"self", "cls"} - names_in(s.lookup_key)
+        rfacts = None
+        for r in slot_reads:
+            f_ = guard_facts(r, fi.node, skip=slot_test, about=other_params)
+            rfacts = f_ if rfacts is None else (rfacts & f_)
+        rguard = _show(rfacts)
         ck.floor("G-MEMO-GUARD", len(s.stores), 1, "_base_units_cache store")
         for (k, v, st) in s.stores:
             ck.check(norm(k) == norm(s.lookup_key) and not reassigned_names(fi, names_in(k)), "G-MEMO-KEY", "base_units|store-key==lookup-key", fi.loc(st),
                      "stored under the looked-up key", f"stored under `{norm(k)}` but looked up with `{norm(s.lookup_key)}`")
-            # enclosing if-tests of the store give the write guard
-            wconj = []
-            p = getattr(st, "_parent", None)
-            child = st
-            while p is not None and not isinstance(p, (ast.FunctionDef, ast.AsyncFunctionDef)):
-                if isinstance(p, ast.If) and child in p.body:
-                    t = p.test
-                    wconj += [norm(x) for x in (t.values if isinstance(t, ast.BoolOp) and isinstance(t.op, ast.And) else [t])]
-                child, p = p, getattr(p, "_parent", None)
-            # `if not system: return` before: system truthy — irrelevant.  Read guard conjuncts must all hold when writing.
-            missing = [c for c in rguard if c not in wconj]
+            # the write guard: everything known where the slot is stored.  Facts that only say that an *earlier* read
+            # missed (`not (<read guard> and key in memo)`) are about the memo, not about the request: left out
+            wfacts = {(t, tr) for (t, tr) in guard_facts(st, fi.node, skip=slot_test, about=other_params) if "_base_units_cache" not in t}
+            wconj = _show(wfacts)
+            missing = _show(rfacts - wfacts)
             ck.check(not missing, "G-MEMO-GUARD", "memo=Registry:_base_units_cache|write-guard-implies-read-guard", fi.loc(st),
                      f"written only under {wconj}, read under {rguard}",
                      f"the memo is written under {wconj or 'no condition'} but read under {rguard}: entries computed for {missing} not holding are served later")
-            extra = [c for c in wconj if c not in rguard]
+            extra = _show(wfacts - rfacts)
             ck.check(not extra, "G-MEMO-GUARD", "memo=Registry:_base_units_cache|read-guard-implies-write-guard", fi.loc(test),
                      "every condition the entries were computed under is re-checked when reading",
                      f"entries are computed under {wconj} but read under {rguard or 'no condition'}: a request for which {extra} does not hold is answered from the memo")
@@ -711,8 +852,10 @@ def rule_context_chain_graph(ck, ix):
     ck.floor("G-MEMO-INV", n, 2, "ContextChain methods editing maps/contexts")
     g = ix.func(CO, "ContextChain.graph")
     ck.analysed(g)
-    src = norm(g.node)
-    ck.check(("self._graph is None" in src or "self._graph is not None" in src) and any(isinstance(f_, ast.For) and norm(f_.iter) == "self" for f_ in walk_local(g.node)), "G-PROV", "ContextChain.graph|built-from-all-rules", g.loc(),
+    from . import shape as _shg
+    fills = [a_ for a_ in walk_local(g.node) if isinstance(a_, ast.Assign) and any(dotted(t_) == "self._graph" for t_ in a_.targets)]
+    lazy = bool(fills) and all(_shg.holds_at(a_, g.node, lambda at: norm(at) == "self._graph is None", True) for a_ in fills)      # built only while unset
+    ck.check(lazy and any(isinstance(f_, ast.For) and norm(f_.iter) == "self" for f_ in walk_local(g.node)), "G-PROV", "ContextChain.graph|built-from-all-rules", g.loc(),
              "graph built lazily from every (src, dst) rule in the chain", "ContextChain.graph is not built from the chain's rules")
     adds = [c for c in walk_local(g.node) if isinstance(c, ast.Call) and call_name(c) == "add"]
     fors = [f for f in walk_local(g.node) if isinstance(f, ast.For)]
@@ -738,8 +881,24 @@ def rule_context_chain_graph(ck, ix):
              "insert_contexts does not prepend reversed(contexts) to both self.contexts and self.maps: precedence/removal order broken")
     rem = ix.func(CO, "ContextChain.remove_contexts")
     ck.analysed(rem)
-    # what is deleted from which list: `del self.contexts[:n]; del self.maps[:n]` or a loop over both lists
-    tg = sorted({f"{p_}{norm(nd.targets[0])[norm(nd.targets[0]).index('['):]}" for (p_, k_, nd) in writes_in(rem.node) if k_ == "item-del" and p_ in ("self.contexts", "self.maps")})
+    # what is deleted from which list: `del self.contexts[:n]; del self.maps[:n]`, a loop over both lists, or the slice
+    # held in a temporary (`first_n = slice(None, n)`)
+    from . import shape as _shr
+
+    def slice_text(sl):
+        r = _shr.resolve(sl, rem.node)
+        if isinstance(r, ast.Call) and isinstance(r.func, ast.Name) and r.func.id == "slice" and not r.keywords and 1 <= len(r.args) <= 3:
+            lo, hi, step = (None, r.args[0], None) if len(r.args) == 1 else (list(r.args) + [None])[:3]
+            txt = lambda x: "" if x is None or (isinstance(x, ast.Constant) and x.value is None) else norm(x)
+            return f"[{txt(lo)}:{txt(hi)}" + (f":{txt(step)}" if txt(step) else "") + "]"
+        return f"[{norm(r)}]"
+    tg = set()
+    for (p_, k_, nd) in writes_in(rem.node):
+        if k_ == "item-del" and p_ in ("self.contexts", "self.maps"):
+            for t in nd.targets:
+                if isinstance(t, ast.Subscript):
+                    tg.add(p_ + slice_text(t.slice))
+    tg = sorted(tg)
     ck.check(tg == ["self.contexts[:n]", "self.maps[:n]"], "G-TWIN", "ContextChain.remove_contexts|contexts-and-maps-truncated-alike", rem.loc(),
              "the first n entries are removed from both lists", f"remove_contexts deletes {tg}: contexts and maps are not truncated alike")
 
@@ -748,13 +907,19 @@ def rule_quantity_dimensionality_memo(ck, ix):
     fi = ix.func("pint.facets.plain.quantity", "PlainQuantity.dimensionality")
     ck.analysed(fi)
     cfg = cfg_of(fi)
+    from . import shape as _shq
     rets = [r for r in return_nodes(cfg) if "_dimensionality" in norm(cfg.nodes[r].ast)]
-    tests = []
-    for n in cfg.nodes:
-        if n.kind == "test":
-            s = norm(n.ast)
-            if "self._units" in s and ("is not" in s or "!=" in s) and "_dimensionality" in s:
-                tests.append(n.id)
+
+    def same_units(at):
+        """positive atom `<recorded units> is self._units` (or ==), in either order"""
+        if not (isinstance(at, ast.Compare) and len(at.ops) == 1 and isinstance(at.ops[0], (ast.Is, ast.Eq))):
+            return False
+        sides = [norm(at.left), norm(at.comparators[0])]
+        return "self._units" in sides and any("_dimensionality" in x for x in sides)
+    # edges on which the memo is known to have been computed for the current units container - however the test is
+    # spelled (`is not` / `not ... is`, either branch first, alone or combined with the is-None test)
+    valid = _shq.guard_edges(cfg, same_units, want=True)
+    tests = sorted({t for t, _ in valid})
     key = "memo=Quantity:_dimensionality|dep=Quantity:_units|writer=in-place-operators"
     if not tests:
         # alternative accepted idiom: no memo at all (computed on every access)
@@ -766,21 +931,15 @@ def rule_quantity_dimensionality_memo(ck, ix):
         p = undominated(cfg, [r], tests)
         ck.check(p is None, "G-MEMO-INV", key, fi.loc(cfg.nodes[r].ast), "memo validated against the units container it was computed for",
                  "the memo can be returned without validation against self._units", witness(cfg, p))
-    for t in tests:
-        upd = [n.id for n in cfg.nodes if n.kind == "stmt" and isinstance(n.ast, ast.Assign) and norm(n.ast.value) == "self._units"
-               and any("_dimensionality" in (dotted(tt) or "") for tt in n.ast.targets)]
-        comp = [n.id for n in cfg.nodes if n.kind == "stmt" and isinstance(n.ast, ast.Assign) and any(dotted(tt) == "self._dimensionality" for tt in n.ast.targets)
-                and isinstance(n.ast.value, ast.Call) and call_name(n.ast.value) == "_get_dimensionality"]
-        for name, gates in (("records-units", upd), ("recomputes", comp)):
-            bad = None
-            for sx in edge_successors(cfg, t, "t"):
-                if sx in gates:
-                    continue
-                pth = cfg.all_paths_pass(sx, rets, gates)
-                if pth:
-                    bad = pth
-            ck.check(bool(gates) and bad is None, "G-MEMO-INV", key + "|" + name, fi.loc(cfg.nodes[t].ast),
-                     f"stale edge {name}", f"on a stale memo the property returns without {name}", witness(cfg, bad))
+    upd = [n.id for n in cfg.nodes if n.kind == "stmt" and isinstance(n.ast, ast.Assign) and norm(n.ast.value) == "self._units"
+           and any("_dimensionality" in (dotted(tt) or "") for tt in n.ast.targets)]
+    comp = [n.id for n in cfg.nodes if n.kind == "stmt" and isinstance(n.ast, ast.Assign) and any(dotted(tt) == "self._dimensionality" for tt in n.ast.targets)
+            and isinstance(n.ast.value, ast.Call) and call_name(n.ast.value) == "_get_dimensionality"]
+    for name, gates in (("records-units", upd), ("recomputes", comp)):
+        # a path that reaches the return without taking a "memo is valid" edge has recorded the units / recomputed
+        bad = cfg.all_paths_pass(cfg.entry, live(cfg, rets), gates, set(valid)) if live(cfg, rets) else None
+        ck.check(bool(gates) and bad is None, "G-MEMO-INV", key + "|" + name, fi.loc(cfg.nodes[tests[0]].ast),
+                 f"stale edge {name}", f"on a stale memo the property returns without {name}", witness(cfg, bad))
     # who may write the memo
     for f in ix.all_functions():
         if f is fi:
@@ -806,9 +965,17 @@ def rule_unit_dimensionality_memo(ck, ix):
                          "Unit._units only assigned during construction", f"{f.qualname} rebinds self._units of a Unit after construction while its dimensionality memo is never invalidated")
     ck.floor("G-MEMO-INV", n, 1, "assignments of PlainUnit._units in __init__")
     # nobody else assigns <x>._units on objects that may be Units
+    # (an object under construction - the receiver is the result of a `__new__` call made in the same function - is
+    # not "another object": that is how PlainQuantity.__new__ initialises the instance it returns)
+    from . import shape as _shu
     for f in ix.all_functions():
         for (p, kind, node) in writes_in(f.node):
-            if p.endswith("._units") and kind == "attr-store" and not p.startswith("self.") and not p.startswith("inst."):
+            if p.endswith("._units") and kind == "attr-store" and not p.startswith("self."):
+                recvs = [t.value for t in ast.walk(node) if isinstance(t, ast.Attribute) and isinstance(t.ctx, ast.Store) and t.attr == "_units" and isinstance(t.value, ast.Name)]
+                made = [_shu.dominating_def(r, f.node) for r in recvs]
+                if recvs and all(isinstance(v, ast.Call) and call_name(v) == "__new__" for v in made):
+                    ck.ok("G-OWN", f"_units|foreign-write|{f.qualname}", f.loc(node), "the receiver is the object under construction (result of __new__ in this function)")
+                    continue
                 ck.fail("G-OWN", f"_units|foreign-write|{f.qualname}", f.loc(node), f"`{norm(node)}` rebinds the units of another object")
 
 
@@ -888,7 +1055,7 @@ def _table_writers(ix, modname, tbl):
 
 def rule_overlay_not_reused(ck, ix):
     # an overlay stored under the chain key before its redefinitions are applied must not be reused by a later activation
-    fi = ix.func(CR, "GenericContextRegistry._switch_context_cache_and_units")
+    fi = _switch_function(ix)
     cfg = cfg_of(fi)
     redef = nodes_calling(cfg, "_redefine")
     hits = [n.id for n in cfg.nodes if n.kind == "stmt" and isinstance(n.ast, ast.Assign) and any(dotted(t) == "self._cache" for t in n.ast.targets)
@@ -926,8 +1093,7 @@ def rule_lazy_prefixed_units(ck, ix):
     independent the lazily registered entry must be invisible to everything that distinguishes defined from derived
     spellings: it is stored once, under prefix + unit_name only, and it stays out of the case-insensitive index that
     _yield_unit_triplets uses as 'is a defined spelling' test."""
-    from .lib import inlined as _inl
-    fi = _inl(ix, ix.func(PR, "GenericPlainRegistry.get_name"), skip=("_helper_adder", "_helper_single_adder"))     # an extracted `_define_prefixed_unit` is looked through
+    fi = looked_through(ix, ix.func(PR, "GenericPlainRegistry.get_name"), skip=("_helper_adder", "_helper_single_adder"))     # an extracted `_define_prefixed_unit` is looked through
     ck.analysed(fi)
     defs = defs_of(fi)
     ws = writes_in(fi.node)
@@ -941,15 +1107,35 @@ def rule_lazy_prefixed_units(ck, ix):
     other = [(p, k, nd) for (p, k, nd) in ws if p.startswith("self.") and not p.startswith("self._units")]
     ck.check(not other, "G-OWN", "memo=Registry:_units(lazy-prefixed)|no-other-state", fi.loc(other[0][2]) if other else fi.loc(), "a lookup writes nothing but the lazily added unit",
              f"get_name also writes {other[0][0] if other else ''}: a read-only lookup changes registry state")
+    from . import shape as _shl
     for (p, k, nd) in st[:1]:
         if isinstance(nd, ast.Assign) and isinstance(nd.targets[0], ast.Subscript):
-            key = norm(defs.inline(nd.targets[0].slice))
-            ck.check(key == "prefix + unit_name", "G-MEMO-KEY", "memo=Registry:_units(lazy-prefixed)|key", fi.loc(nd), "stored under the canonical long name", f"the lazily added unit is stored under `{key}`, not the canonical prefix + unit_name")
+            # the key is <prefix> + <unit name> of the chosen reading: the first two components of one and the same
+            # (prefix, unit, suffix) candidate, whatever the locals are called
+            key = _shl.resolve(nd.targets[0].slice, fi.node)
+            ck.check(_shl.match("_C[0][0] + _C[0][1]", key) is not None, "G-MEMO-KEY", "memo=Registry:_units(lazy-prefixed)|key", fi.loc(nd), "stored under the canonical long name", f"the lazily added unit is stored under `{norm(nd.targets[0].slice)}` (= `{norm(key)}`), not the canonical prefix + unit_name")
     yt = ix.func(PR, "GenericPlainRegistry._yield_unit_triplets")
     ck.analysed(yt)
-    guard = [t for t in walk_local(yt.node) if isinstance(t, ast.If) and "prefix" in norm(t.test) and "_units_casei" in norm(t.test)]
-    ok = bool(guard) and any(isinstance(x, ast.Continue) for g in guard for x in ast.walk(g)) and all("not in" in norm(g.test) for g in guard)
-    ck.check(ok, "G-DOM", "_yield_unit_triplets|prefix-only-on-defined-spellings", yt.loc(guard[0]) if guard else yt.loc(),
+    # Where a key N of the unit table itself is turned into a reading (the yield of (self._prefixes[P].name,
+    # self._units[N].name, ...), or the statement that selects N as the spelling to yield), "P is empty or N is a defined
+    # spelling" is known: the site is never reached with (P non-empty and N not in the case-insensitive index of defined
+    # spellings) - as an enclosing test or as a guard clause, in either polarity.
+    yields = [y for y in walk_local(yt.node) if isinstance(y, ast.Yield) and isinstance(y.value, ast.Tuple) and len(y.value.elts) == 3]
+    prefixes = {b_["_P"] for b_ in (_shl.match("self._prefixes[_P].name", y.value.elts[0]) for y in yields) if b_ is not None}
+    in_table = lambda at: isinstance(at, ast.Compare) and isinstance(at.ops[0], ast.In) and norm(at.comparators[0]) == "self._units"
+    direct = []
+    for x in walk_local(yt.node):
+        if isinstance(x, (ast.Yield, ast.Assign)):
+            Ns = {norm(at.left) for at, tr in _shl.facts_at(x, yt.node) if tr and in_table(at)}
+            if Ns:
+                direct.append((x, Ns))
+    ck.floor("G-DOM", len(direct) if prefixes else 0, 1, "reading produced from a key of the unit table in _yield_unit_triplets")
+    ok = True
+    for x, Ns in direct:
+        defined = lambda at: isinstance(at, ast.Compare) and isinstance(at.ops[0], ast.In) and norm(at.left) in Ns and "_units_casei" in norm(at.comparators[0])
+        prot = [ex for ex in excluded_conjunctions(x, yt.node) if len(ex) == 2 and any(norm(at) in prefixes and tr for at, tr in ex) and any(defined(at) and not tr for at, tr in ex)]
+        ok = ok and bool(prot)
+    ck.check(ok, "G-DOM", "_yield_unit_triplets|prefix-only-on-defined-spellings", yt.loc(direct[0][0]),
              "a prefix is only applied to defined spellings (not to prefixed units registered lazily by an earlier lookup)",
              "prefixes are applied to any key of the unit table, including lazily registered prefixed units: 'kilomillifoot' parses after 'millifoot' was looked up, a fresh registry rejects it")
     # symbol / casei twin lookups are read-only
